@@ -8,9 +8,10 @@ HERE="$(cd "$(dirname "${BASH_SOURCE[0]}")" && pwd)"
 # Defaults are the locations fixed by SPEC.md; the overrides exist to build against another source
 # tree (e.g. a pristine `git archive` of /repo while /repo itself is being mutated).
 REPO="${VERIF_REPO:-/repo}"
-OUT="${VERIF_CPP_OUT:-/verif/build/cpp}"
+VROOT="$(cd "$HERE/../.." && pwd)"
+OUT="${VERIF_CPP_OUT:-$VROOT/build/cpp}"
 GEN_INC="$OUT/include"
-TARGET="${VERIF_CPP_TARGET:-/verif/build/cpp-target}"
+TARGET="${VERIF_CPP_TARGET:-$VROOT/build/cpp-target}"
 LIB="$TARGET/debug/libresolvo_cpp.a"
 SRC="$HERE/cpp_harness.cpp"
 EXE="$OUT/cpp_harness"
